@@ -87,7 +87,7 @@ class Arm:
                     if d.get('k') != 'VarDecl':
                         continue
                     init = cn(d['init']) if isinstance(d.get('init'), dict) else None
-                    if d.get('name') == 'it' or (init and isinstance(init, tuple) and init[0] == 'mcall' and init[1].endswith('::cbegin') and init[2] == ('.', 'expr', 'vars') and not d.get('bindings')):
+                    if (init and isinstance(init, tuple) and init[0] == 'mcall' and init[1].endswith('::cbegin') and init[2] == ('.', 'expr', 'vars') and not d.get('bindings')):
                         self.itname = d['name']
                         it_idx = 0
                     elif d.get('bindings') and it_idx is not None:
@@ -192,6 +192,8 @@ def r1(ctx, fs):
         for fname, rel in list(RELS.items()) + [('new_eq', '==')]:
             f = fs.fn('smt::%s::%s' % (theory, fname), params=['lin', 'lin'])
             env = LocalEnv(f)
+            env.param_roles(['left', 'right'])
+            env.local_role('expr', lambda n, i: n.get('t') == 'smt::lin' and i == ('-', 'left', 'right'))
             cn = lambda n: canon(n, env, subst=False)
             seen_cells = set()
             for p in enum_paths(f.body):
@@ -373,6 +375,11 @@ def r3(ctx, fs):
     for theory in ('idl_theory', 'rdl_theory'):
         f = fs.fn('smt::%s::bounds' % theory, params=['lin'])
         env = LocalEnv(f)
+        env.param_roles(['l'])
+        accs = sorted((d for d, nd in env.decls.items() if nd.get('t') in ('long', 'smt::inf_rational') and not nd.get('bindings')), key=lambda d: tuple(int(x) for x in d.rsplit(':', 2)[1:]))
+        if len(accs) < 2:
+            raise AnalysisBroken('%s: the two accumulators (lower, upper) were not found' % f.id)
+        env.rename[accs[0]], env.rename[accs[1]] = 'c_lb', 'c_ub'
         n = 0
         for p in enum_paths(f.body):
             signs = {}
